@@ -20,7 +20,7 @@ structure OpsLe (a b : Ops W) : Prop where
   exitAll : ∀ y s, Le (a.exitAll y s) (b.exitAll y s)
   recur : ∀ y s, Le (a.recur y s) (b.recur y s)
   segue : ∀ y s, Le (a.segue y s) (b.segue y s)
-  checkStart : ∀ y s, Le (a.checkStart y s) (b.checkStart y s)
+  checkStart : ∀ y cl s, Le (a.checkStart y cl s) (b.checkStart y cl s)
 
 theorem forEach_le {α : Type} (f g : α → St W → Except Err (St W)) (h : ∀ x s, Le (f x s) (g x s)) :
     ∀ (l : List α) (s : St W), Le (forEach f l s) (forEach g l s) := by
@@ -53,6 +53,22 @@ theorem allM_le {α : Type} (p q : α → Except Err Bool) (h : ∀ x, Le (p x) 
       | false => simpa [hx] using hv
       | true => simp only [hx] at hv; exact ih v hv
 
+theorem allC_le {α : Type} (p q : List Frid → α → Except Err (Option (List Frid))) (h : ∀ cl x, Le (p cl x) (q cl x)) :
+    ∀ (l : List α) (cl : List Frid), Le (allC p l cl) (allC q l cl) := by
+  intro l
+  induction l with
+  | nil => intro cl v hv; exact hv
+  | cons x xs ih =>
+    intro cl v hv
+    simp only [allC] at hv ⊢
+    cases hx : p cl x with
+    | error e => simp [hx] at hv
+    | ok b =>
+      rw [h cl x b hx]
+      cases b with
+      | none => simpa [hx] using hv
+      | some c1 => simp only [hx] at hv; exact ih c1 v hv
+
 section mono
 variable (P : Prog) (sem : Sem W) {lo lo' : Ops W} (hle : OpsLe lo lo')
 include hle
@@ -64,7 +80,8 @@ theorem deactivateAux_le (aux : Frid) (s : St W) : Le (deactivateAux P lo aux s)
   | error e => simp [hx] at hv
   | ok s1 => rw [hle.exitAll aux s s1 hx]; simpa [hx] using hv
 
-theorem deactivize_le (aux : Frid) (s : St W) : Le (deactivize P lo aux s) (deactivize P lo' aux s) := by
+theorem deactivize_le (f : Fid) (aux : Frid) (s : St W) :
+    Le (deactivize P lo f aux s) (deactivize P lo' f aux s) := by
   intro v hv
   unfold deactivize at hv ⊢
   split
@@ -73,40 +90,63 @@ theorem deactivize_le (aux : Frid) (s : St W) : Le (deactivize P lo aux s) (deac
     simp only [hd] at hv
     exact deactivateAux_le P hle aux s v hv
 
-theorem auxCheck_le (f : Fid) (exits : List Fid) (s : St W) (aux : Frid) :
-    Le (auxCheck lo f exits s aux) (auxCheck lo' f exits s aux) := by
+theorem auxClaim_le (s : St W) (cl : List Frid) (aux : Frid) :
+    Le (auxClaim P lo s cl aux) (auxClaim P lo' s cl aux) := by
+  intro v hv
+  unfold auxClaim at hv ⊢
+  split
+  · rename_i ho
+    rw [if_pos ho] at hv
+    split
+    · rename_i hc; rw [if_pos hc] at hv; exact hv
+    · rename_i hc; rw [if_neg hc] at hv
+      exact hle.checkStart aux _ s v hv
+  · rename_i ho
+    rw [if_neg ho] at hv
+    exact hle.checkStart aux cl s v hv
+
+theorem auxCheck_le (f : Fid) (exits : List Fid) (s : St W) (cl : List Frid) (aux : Frid) :
+    Le (auxCheck P lo f exits s cl aux) (auxCheck P lo' f exits s cl aux) := by
   intro v hv
   unfold auxCheck at hv ⊢
   cases hm : (s.fr aux).main with
-  | none => simp only [hm] at hv ⊢; exact hle.checkStart aux s v hv
+  | none => simp only [hm] at hv ⊢; exact auxClaim_le P hle s cl aux v hv
   | some m =>
     simp only [hm] at hv ⊢
     split
     · simpa [*] using hv
     · rename_i hc
       simp only [hc, if_false] at hv
-      exact hle.checkStart aux s v hv
+      exact auxClaim_le P hle s cl aux v hv
 
-theorem frameCheckEnter_le (exits : List Fid) (s : St W) (f : Fid) :
-    Le (frameCheckEnter P sem lo exits s f) (frameCheckEnter P sem lo' exits s f) := by
+theorem frameCheckEnter_le (exits : List Fid) (s : St W) (cl : List Frid) (f : Fid) :
+    Le (frameCheckEnter P sem lo exits s cl f) (frameCheckEnter P sem lo' exits s cl f) := by
   intro v hv
   unfold frameCheckEnter at hv ⊢
   split
   · rename_i hn
     simp only [hn, if_true] at hv
-    exact allM_le _ _ (auxCheck_le hle f exits s) _ v hv
+    exact allC_le _ _ (auxCheck_le P hle f exits s) _ cl v hv
   · rename_i hn
     simpa [hn] using hv
+
+theorem checkEnterC_le (enters exits : List Fid) (cl : List Frid) (s : St W) :
+    Le (checkEnterC P sem lo enters exits cl s) (checkEnterC P sem lo' enters exits cl s) := by
+  intro v hv
+  unfold checkEnterC at hv ⊢
+  split
+  · rename_i he; simpa [he] using hv
+  · rename_i he
+    simp only [he] at hv
+    exact allC_le _ _ (frameCheckEnter_le P sem hle exits s) _ cl v hv
 
 theorem checkEnter_le (enters exits : List Fid) (s : St W) :
     Le (checkEnter P sem lo enters exits s) (checkEnter P sem lo' enters exits s) := by
   intro v hv
   unfold checkEnter at hv ⊢
-  split
-  · rename_i he; simpa [he] using hv
-  · rename_i he
-    simp only [he] at hv
-    exact allM_le _ _ (frameCheckEnter_le P sem hle exits s) _ v hv
+  cases hc : checkEnterC P sem lo enters exits [] s with
+  | error e => simp [hc] at hv
+  | ok r => rw [checkEnterC_le P sem hle enters exits [] s r hc]; simpa [hc] using hv
 
 theorem frameEnter_le (f : Fid) (s : St W) : Le (frameEnter P sem lo f s) (frameEnter P sem lo' f s) := by
   unfold frameEnter
@@ -124,7 +164,7 @@ theorem frameExit_le (f : Fid) (s : St W) : Le (frameExit P sem lo f s) (frameEx
   | ok s1 =>
     simp only [hx] at hv
     rw [forEach_le _ _ (deactivateAux_le P hle) _ _ s1 hx]
-    exact forEach_le _ _ (deactivize_le P hle) _ _ v hv
+    exact forEach_le _ _ (deactivize_le P hle f) _ _ v hv
 
 theorem exit_le (l : List Fid) (s : St W) : Le (exit P sem lo l s) (exit P sem lo' l s) := by
   unfold exit
@@ -152,6 +192,11 @@ theorem recur_le (i : Frid) (s : St W) : Le (recur P sem lo i s) (recur P sem lo
 theorem checkStart_le (i : Frid) (s : St W) : Le (checkStart P sem lo i s) (checkStart P sem lo' i s) := by
   unfold checkStart
   exact checkEnter_le P sem hle _ _ _
+
+theorem checkStartC_le (i : Frid) (cl : List Frid) (s : St W) :
+    Le (checkStartC P sem lo i cl s) (checkStartC P sem lo' i cl s) := by
+  unfold checkStartC
+  exact checkEnterC_le P sem hle _ _ _ _
 
 theorem transit_le (i : Frid) (f : Fid) (needs : List NeedId) (far : Fid) (tracts : List Act) (s : St W) :
     Le (transit P sem lo i f needs far tracts s) (transit P sem lo' i f needs far tracts s) := by
@@ -217,13 +262,13 @@ theorem suspendStart_le (i : Frid) (f : Fid) (needs : List NeedId) (aux : Frid) 
     · rename_i ho; simpa [ho] using hv
     · rename_i ho
       simp only [ho] at hv
-      cases hc : lo.checkStart aux s with
+      cases hc : lo.checkStart aux [] s with
       | error e => simp [hc] at hv
       | ok b =>
-        rw [hle.checkStart aux s b hc]
+        rw [hle.checkStart aux [] s b hc]
         cases b with
-        | false => simpa [hc] using hv
-        | true => simp only [hc] at hv ⊢; exact suspendEnter_le P sem hle i f aux tracts s v hv
+        | none => simpa [hc] using hv
+        | some _ => simp only [hc] at hv ⊢; exact suspendEnter_le P sem hle i f aux tracts s v hv
   · rename_i hn; simpa [hn] using hv
 
 theorem suspendRun_le (i : Frid) (aux : Frid) (s : St W) :
@@ -254,7 +299,11 @@ theorem suspend_le (i : Frid) (f : Fid) (needs : List NeedId) (aux : Frid) (trac
   unfold suspend at hv ⊢
   split
   · rename_i hd; simp only [hd, if_true] at hv; exact suspendStart_le P sem hle i f needs aux tracts s v hv
-  · rename_i hd; simp only [hd] at hv; exact suspendRun_le P hle i aux s v hv
+  · rename_i hd
+    simp only [hd] at hv
+    split
+    · rename_i hno; simpa [hno] using hv
+    · rename_i hno; simp only [hno] at hv; exact suspendRun_le P hle i aux s v hv
 
 theorem runPreact_le (i : Frid) (f : Fid) (p : Preact) (s : St W) :
     Le (runPreact P sem lo i f p s) (runPreact P sem lo' i f p s) := by
@@ -313,7 +362,7 @@ theorem segue_le (i : Frid) (s : St W) : Le (segue P sem lo i s) (segue P sem lo
     exact segueLoop_le P sem hle i _ s1 v hv
 
 theorem nextOps_le : OpsLe (nextOps P sem lo) (nextOps P sem lo') :=
-  ⟨enterAll_le P sem hle, exitAll_le P sem hle false, recur_le P sem hle, segue_le P sem hle, checkStart_le P sem hle⟩
+  ⟨enterAll_le P sem hle, exitAll_le P sem hle false, recur_le P sem hle, segue_le P sem hle, checkStartC_le P sem hle⟩
 
 theorem framerStep_le (i : Frid) (c : Control) (s : St W) :
     Le (framerStep P sem lo i c s) (framerStep P sem lo' i c s) := by
@@ -417,16 +466,16 @@ end mono
 
 theorem opsAt_le_succ (P : Prog) (sem : Sem W) : ∀ n, OpsLe (opsAt P sem n) (opsAt P sem (n + 1))
   | 0 => by
-    refine ⟨?_, ?_, ?_, ?_, ?_⟩ <;> intro y s v hv <;> simp [opsAt, Ops.bottom] at hv
+    refine ⟨?_, ?_, ?_, ?_, ?_⟩ <;> intros <;> intro v hv <;> simp [opsAt, Ops.bottom] at hv
   | n + 1 => nextOps_le P sem (opsAt_le_succ P sem n)
 
 theorem OpsLe.trans {a b c : Ops W} (h1 : OpsLe a b) (h2 : OpsLe b c) : OpsLe a c :=
   ⟨fun y s v hv => h2.enterAll y s v (h1.enterAll y s v hv), fun y s v hv => h2.exitAll y s v (h1.exitAll y s v hv),
    fun y s v hv => h2.recur y s v (h1.recur y s v hv), fun y s v hv => h2.segue y s v (h1.segue y s v hv),
-   fun y s v hv => h2.checkStart y s v (h1.checkStart y s v hv)⟩
+   fun y cl s v hv => h2.checkStart y cl s v (h1.checkStart y cl s v hv)⟩
 
 theorem OpsLe.refl (a : Ops W) : OpsLe a a :=
-  ⟨fun _ _ _ h => h, fun _ _ _ h => h, fun _ _ _ h => h, fun _ _ _ h => h, fun _ _ _ h => h⟩
+  ⟨fun _ _ _ h => h, fun _ _ _ h => h, fun _ _ _ h => h, fun _ _ _ h => h, fun _ _ _ _ h => h⟩
 
 theorem opsAt_mono (P : Prog) (sem : Sem W) (n : Nat) : ∀ k, OpsLe (opsAt P sem n) (opsAt P sem (n + k))
   | 0 => OpsLe.refl _
